@@ -253,9 +253,13 @@ class BaseParagraph(debcon.FieldMixin):
             # we only strip leading spaces, including a possible first empty line
             mapping[name] = value.lstrip()
 
+            # the field content starts at its first line that is not blank:
+            # skip an empty declaration line and blank lines absorbed after it
             start_line = field.start_line
-            if value.startswith('\n'):
-                start_line += 1
+            for line in field.lines:
+                if line.value.strip():
+                    start_line = line.number
+                    break
             line_numbers_by_field[name] = (start_line, field.end_line,)
 
         try:
